@@ -114,8 +114,21 @@ def shard(col, module, mode, pop_bound, limit, pairs):
         # of the generated assertions; the subsets that matter for this property are enumerated:
         # everything, only assertions whose source is a bare variable, only dotted (field) sources.
         variants = ("all", "bare-only", "dotted-only") if mode == "SIMPLE" else ("all",)
+        # tripled tests: three renamed copies of one small test in a row (the copies are coverage-redundant
+        # to each other), explored with the assertions of the FIRST copy dropped: unasserted removable
+        # statements in front of asserted redundant ones
+        tripled = {}
+        if mode == "SIMPLE":
+            for t in [t for t in tests if t.size() <= 3][:8]:
+                t3 = t.clone()
+                t3.append_test_case(t.clone())
+                t3.append_test_case(t.clone())
+                if t3.size() == 3 * t.size():
+                    tripled[len(groups)] = t.size()
+                    groups.append([t3])
         for gi, group in enumerate(groups):
-            for (strategy, direction), variant in itertools.product(STRATEGIES, variants):
+            vs = ("unassert-head",) if gi in tripled else variants
+            for (strategy, direction), variant in itertools.product(STRATEGIES, vs):
                 suite = pipe.suite(group)
                 data = {"module": module, "mode": mode, "strategy": strategy, "direction": direction,
                         "tests": [t.to_code() for t in group], "pop_bound": pop_bound, "variant": variant}
@@ -127,9 +140,12 @@ def shard(col, module, mode, pop_bound, limit, pairs):
                 if variant != "all":
                     changed = False
                     for chrom in suite.test_case_chromosomes:
-                        for st in chrom.test_case.statements():
-                            keep = [a for a in st.assertions
-                                    if ("." in str(getattr(a, "source", ""))) == (variant == "dotted-only")]
+                        for si, st in enumerate(chrom.test_case.statements()):
+                            if variant == "unassert-head":
+                                keep = [] if si < tripled[gi] else list(st.assertions)
+                            else:
+                                keep = [a for a in st.assertions
+                                        if ("." in str(getattr(a, "source", ""))) == (variant == "dotted-only")]
                             if len(keep) != len(st.assertions):
                                 st.assertions[:] = keep
                                 changed = True
